@@ -197,7 +197,7 @@ Definition in_rows (d : db) (eb a : Z) (ty : option Z) : list (Z * Z * Z) :=
 Definition sp_rows (d : db) (eb a : Z) (dr : dir) (ty : option Z) : list (Z * Z * Z) :=
   match dr with
   | Out => out_rows d eb a ty
-  | In => in_rows d eb a ty
+  | Inc => in_rows d eb a ty
   | Both => out_rows d eb a ty ++ in_rows d eb a ty
   end.
 (** raw neighbour lists: every edge of the database, whether or not the other end still exists *)
@@ -206,7 +206,7 @@ Definition sp_neigh (d : db) (eb n : Z) (dr : dir) : list (Z * Z) :=
                      | Some (s, t, _) =>
                          match dr with
                          | Out => if s =? n then [(t, e)] else []
-                         | In => if t =? n then [(s, e)] else []
+                         | Inc => if t =? n then [(s, e)] else []
                          | Both => (if s =? n then [(t, e)] else []) ++ (if t =? n then [(s, e)] else [])
                          end
                      | None => []
@@ -227,7 +227,7 @@ Definition sp_read (d dc : db) (nb eb : Z) (k : kind) : out :=
   | GetEdge e => OEdge (d_edge d e)
   | GetProp n k => OVal (match d_node d n with Some (_, ps) => pget k ps | None => None end)
   | Neigh n dr => OPairs (isort leb2 (sp_neigh d eb n dr))
-  | Degree n => ODeg (Z.of_nat (length (sp_neigh d eb n Out))) (Z.of_nat (length (sp_neigh d eb n In)))
+  | Degree n => ODeg (Z.of_nat (length (sp_neigh d eb n Out))) (Z.of_nat (length (sp_neigh d eb n Inc)))
   | TripleQ p | TripleApi p => OTriples (isort leb3 (rdf_find (d_trip d) p))
   (* database-level calls are not made by a session: they read the committed database *)
   | DbCounts => OCounts (Z.of_nat (length (node_ids_of dc nb)))
